@@ -372,6 +372,17 @@ class Tr:
                         continue
                     parts.append(f"({left}).isNone" if isinstance(op, ast.Is) else f"({left}).isSome")
                     continue
+                if isinstance(op, (ast.In, ast.NotIn)) and tl == NONE and not isinstance(rn, (ast.List, ast.Tuple)):
+                    # `None in shape` for a tuple-typed value: some component is None
+                    right, tr = self.expr(rn, env)
+                    if not (isinstance(tr, tuple) and tr[0] == "tuple"):
+                        raise TranslationError(f"membership in a non-tuple: {src}")
+                    n = len(tr[1])
+                    alts = [f"({proj(right, i, n)}).isNone" for i, ct in enumerate(tr[1]) if isinstance(ct, tuple) and ct[0] == "opt"]
+                    inn = "(" + " || ".join(alts) + ")" if alts else "false"
+                    parts.append(inn if isinstance(op, ast.In) else f"(!{inn})")
+                    left, tl = right, tr
+                    continue
                 if isinstance(op, (ast.In, ast.NotIn)) and isinstance(rn, (ast.List, ast.Tuple)):
                     alts = []
                     for el in rn.elts:
@@ -1593,6 +1604,23 @@ SPECS = [
          params=[("points", tup(tup(RAT, RAT), tup(RAT, RAT), tup(RAT, RAT))), ("out_y", RAT), ("out_x", RAT)],
          returns=tup(NRAT, NRAT), select=_whole, nan_division=True,
          inline={"find_indices_outside_min_and_max": dict(lean="find_outside", args=[NRAT, RAT, RAT], returns=BOOL)}, owners=["C06"]),
+    # ---- C14: what `freeze` keeps of what was given explicitly ---------------------------------------------------------
+    dict(name="freeze_plan", file="pyresample/geometry.py", func="DynamicAreaDefinition.freeze", mode="fragment",
+         params=[("resolution", opt(RAT)), ("self.resolution", opt(RAT)), ("shape", opt(tup(opt(INT), opt(INT)))),
+                 ("self.shape", tup(opt(INT), opt(INT))), ("self.area_extent", opt(tup(RAT, RAT, RAT, RAT)))],
+         outputs=["resolution", "shape", "height", "width", "area_extent", "need_compute"],
+         output_types={"resolution": opt(RAT), "shape": opt(tup(opt(INT), opt(INT))), "height": opt(INT), "width": opt(INT),
+                       "area_extent": opt(tup(RAT, RAT, RAT, RAT)), "need_compute": BOOL},
+         select=lambda fn: (lambda i: list(fn.body[i:-2]) + [ast.fix_missing_locations(ast.Assign(
+             targets=[ast.Name(id="need_compute", ctx=ast.Store())], value=fn.body[-2].test, lineno=0))])(
+             [k for k, st in enumerate(fn.body) if isinstance(st, ast.If) and ast.unparse(st.test) == "resolution is None"][0]),
+         guard=lambda fn: isinstance(fn.body[-2], ast.If) and not fn.body[-2].orelse
+         and [ast.unparse(x) for x in fn.body[-2].body] == [
+             "projection, corners = self._compute_bound_centers(proj_dict, lonslats, antimeridian_mode=antimeridian_mode)",
+             "with suppress(CRSError):\n    projection = CRS(CRS(projection).to_epsg())",
+             "area_extent, width, height = self.compute_domain(corners, resolution, shape, projection)"]
+         and ast.unparse(fn.body[-1]) == "return AreaDefinition(self.area_id, self.description, '', projection, width, height, area_extent)",
+         owners=["C14"]),
     # ---- C13 -----------------------------------------------------------------------------------
     dict(name="validate_variable2", file="pyresample/area_config.py", func="_validate_variable", raises=True,
          params=[("var", opt(tup(RAT, RAT))), ("new_var", tup(RAT, RAT))], returns=tup(RAT, RAT), select=_whole, owners=["C13"]),
